@@ -84,6 +84,7 @@ class Block:
         self.eta_found = {}
         self.head_all = None   # head text for every fn of the block (a fn's own `head` is put after it)
         self.trait_decl_only = False  # R12 (`//@ decl-only`): a trait is emitted as declarations only (default bodies dropped, specs kept)
+        self.params_to_let_all = False  # R8 for every fn of the block
         self.impl_to_generic = False  # R11: `x: &impl Trait` parameters become a named type parameter
         self.as_spec = None    # R10: emit the selected fn a second time as `pub closed spec fn <as_spec>` (its spec twin)
 
@@ -326,16 +327,24 @@ class Assembler:
                         elif d == 'bare':
                             blk.bare = True
                         elif d == 'closure-params-to-let':
-                            blk.cur.params_to_let = True
-                        elif d.startswith('result-map-to-match '):
+                            if blk.cur is None:
+                                # before any `//@ fn` of a whole impl/trait/mod: R8 for every fn of the block
+                                blk.params_to_let_all = True
+                            else:
+                                blk.cur.params_to_let = True
+                        elif d.startswith('result-map-to-match? ') or d.startswith('result-map-to-match '):
                             # R13 (opt-in): `RECV.map(|p| body)` on a Result, addressed by the closure's parameter list
                             # `/|p|/`, is written out by the definition of Result::map:
                             # `match RECV { Ok(p) => Ok(body), Err(e) => Err(e) }` (Verus rejects a closure that captures
                             # a mutable reference; on a receiver that is not a Result the match does not type-check -> UNDECIDED)
-                            key_ = _loop_key(d[len('result-map-to-match '):])
+                            # `result-map-to-match?`: skipped when the fn has no such `.map(` (another shape of the fn)
+                            opt_ = d.startswith('result-map-to-match? ')
+                            key_ = _loop_key(d.split(None, 1)[1])
                             if not isinstance(key_, str):
                                 raise UnitSyntax('line %d: result-map-to-match needs /|params|/' % (i + 1))
                             blk.cur.map_to_match.add(''.join(key_.split()))
+                            if opt_:
+                                blk.cur.optional.add(('map-to-match', ''.join(key_.split())))
                         elif d == 'no-canary':
                             blk.cur.canary = False
                         elif d.startswith('as-spec '):
@@ -699,7 +708,7 @@ class Assembler:
                     # (Rust reference, closure expressions: parameters are irrefutable patterns bound like `let`).
                     # Verus' front end only accepts plain variables as closure parameters.
                     lets = ''
-                    if tgt and tgt.params_to_let and pe > k + 1:
+                    if ((tgt and tgt.params_to_let) or blk.params_to_let_all) and pe > k + 1:
                         groups, cur, depth = [], [], 0
                         for q in range(k + 1, pe):
                             tq = st[q]
@@ -732,7 +741,7 @@ class Assembler:
                                 tmp = '__rbv_p%d_%d' % (closure_no, gi + 1)
                                 edits.append((st[pat[0]].start, st[pat[0]].end, tmp))
                                 self.rewrites.append('R8 %s:%d closure #%d of fn %s: wildcard parameter `_` named `%s`'
-                                                     % (blk.relpath, src.line_of(t.start), closure_no, tgt.name, tmp))
+                                                     % (blk.relpath, src.line_of(t.start), closure_no, fn_item.name, tmp))
                                 continue
                             simple = (len(pat) == 1 and st[pat[0]].kind == 'ident') or (
                                 len(pat) == 2 and st[pat[0]].text == 'mut' and st[pat[1]].kind == 'ident')
@@ -743,7 +752,7 @@ class Assembler:
                             edits.append((st[pat[0]].start, st[pat[-1]].end, tmp))
                             lets += ' let %s = %s;' % (ptext, tmp)
                             self.rewrites.append('R8 %s:%d closure #%d of fn %s: pattern parameter `%s` -> `%s` + `let %s = %s;` at the head of the body'
-                                                 % (blk.relpath, src.line_of(t.start), closure_no, tgt.name, ' '.join(ptext.split()), tmp, ' '.join(ptext.split()), tmp))
+                                                 % (blk.relpath, src.line_of(t.start), closure_no, fn_item.name, ' '.join(ptext.split()), tmp, ' '.join(ptext.split()), tmp))
                     if ctext is not None or lets:
                         if ctext is not None:
                             self.rewrites.append('C %s:%d closure #%d of fn %s: contract spliced between parameters and body%s'
@@ -831,6 +840,8 @@ class Assembler:
                 blk.eta_found[ctor_full] = blk.eta_found.get(ctor_full, 0) + found
             if tgt:
                 for n in tgt.map_to_match:
+                    if ('map-to-match', n) in tgt.optional:
+                        continue
                     raise AnchorLost('fn %s has no `.map(%s ..)` in %s' % (tgt.name, n, blk.relpath))
                 for n in tgt.closures:
                     if n not in seen_closures and ('closure', n) not in tgt.optional:
